@@ -96,7 +96,7 @@ lbytes.CODECS["utf-8"] = lbytes.CODECS["utf8"] = (_utf8_encode, None)
 
 # ---- the lifted world -------------------------------------------------------------------------------
 
-LA = lift.lift("twisted.web._abnf")
+LA = lift.lift("twisted.web._abnf", use_re=True)
 LH = lift.lift("twisted.web.http_headers", overrides={"_istoken": LA._istoken}, encode_calls=True)
 
 
